@@ -1,21 +1,22 @@
 # shared environment + build step for all check commands
 export GOFLAGS=-mod=mod GOPROXY=off GOSUMDB=off GOTOOLCHAIN=local GONOSUMDB=* GONOSUMCHECK=1 GOFLAGS="-mod=mod"
 export VERIF_REPO="${VERIF_REPO:-/repo}"
-mkdir -p /verif/.build
+export VERIF_BUILD="${VERIF_BUILD:-/verif/.build}"
+mkdir -p $VERIF_BUILD
 build_verifcheck() {
   (
     flock 9
     cd /verif/harness || exit 2
-    if [ ! -x /verif/.build/mkoverlay ] || [ cmd/mkoverlay/main.go -nt /verif/.build/mkoverlay ]; then
-      go build -o /verif/.build/mkoverlay ./cmd/mkoverlay || exit 2
+    if [ ! -x $VERIF_BUILD/mkoverlay ] || [ cmd/mkoverlay/main.go -nt $VERIF_BUILD/mkoverlay ]; then
+      go build -o $VERIF_BUILD/mkoverlay ./cmd/mkoverlay || exit 2
     fi
-    /verif/.build/mkoverlay -repo "$VERIF_REPO" -shim /verif/harness/shim -out /verif/.build/ov >/verif/.build/mkoverlay.log 2>&1 || { cat /verif/.build/mkoverlay.log >&2; exit 2; }
-    go build -tags verif -overlay /verif/.build/ov/overlay.json -o /verif/.build/verifcheck ./cmd/verifcheck || exit 2
+    $VERIF_BUILD/mkoverlay -repo "$VERIF_REPO" -shim /verif/harness/shim -out $VERIF_BUILD/ov >$VERIF_BUILD/mkoverlay.log 2>&1 || { cat $VERIF_BUILD/mkoverlay.log >&2; exit 2; }
+    go build -tags verif -overlay $VERIF_BUILD/ov/overlay.json -o $VERIF_BUILD/verifcheck ./cmd/verifcheck || exit 2
     if [ "${1:-}" = "C19" ] || [ "${1:-}" = "race" ]; then
       # -race switches on checkptr instrumentation as well; the library casts page buffers to structs with
       # unsafe.Pointer (hash table pages), which checkptr turns into a fatal error that has nothing to do
       # with data races: checkptr is switched off for the race build
-      go build -race -gcflags=all=-d=checkptr=0 -tags verif -overlay /verif/.build/ov/overlay.json -o /verif/.build/verifcheck-race ./cmd/verifcheck || exit 2
+      go build -race -gcflags=all=-d=checkptr=0 -tags verif -overlay $VERIF_BUILD/ov/overlay.json -o $VERIF_BUILD/verifcheck-race ./cmd/verifcheck || exit 2
     fi
-  ) 9>/verif/.build/lock
+  ) 9>$VERIF_BUILD/lock
 }
